@@ -55,4 +55,32 @@ PROPS = {
         real=REAL_CODEC, simulated=SIM_COMMON,
         assumptions=ASSUME_COMMON + ["frame_size above one second and NULL data with len>0 on multistream/projection decoders are outside the claim"],
     ),
+    "C07": dict(
+        level="exploration",
+        variants=dict(quick=[("asan", 1)], thorough=[("asan", 3), ("fixed-asan", 1)]),
+        must_build=["asan"],
+        runs=dict(quick=12000, thorough=400000), secs=dict(quick=45, thorough=500),
+        rule="one evaluation = one middlebox session: a packet pool (live encoder output, packets built by the simulator's own framer with codes 0-3 / CBR / VBR / boundary frame sizes / 1-48 frames / "
+             "zero, arbitrary and extension padding, and corrupted variants) driven through 1-3 repacketizers by seeded INIT/CAT/OUT/OUT_RANGE sequences (each OUT with generous, exact and too-small maxlen) "
+             "and through pad / unpad / multistream pad / unpad; faults = invalid or incompatible packet offered, >120 ms, bad ranges, too-small buffers, new_len<len; oracle = frame-list model, "
+             "independent framing model, twin decoders; non-trivial = a fault fired (rejection / bad range / too-small) and >=5 successful operations; distinct = signature over (TOC, frame count, output code, rejection) sequence",
+        fault_keys=["cat_invalid_offered", "cat_toc_incompatible", "cat_over_120ms", "out_bad_range", "out_too_small", "pool_invalid"],
+        probes_required=["cat_ok", "out_ok", "out_code3_multi", "out_len_ge252", "pad_ok", "unpad_ok", "mspad_ok", "msunpad_ok", "decode_compared", "syn_code0", "syn_code1", "syn_code2", "syn_code3", "pool_real"],
+        real=REAL_CODEC, simulated=SIM_COMMON + ["packet pool and frame-list model", "independent framer (model_build)"],
+        assumptions=ASSUME_COMMON + ["lifetime misuse (freeing a packet still referenced by the repacketizer) is outside the claim"],
+    ),
+    "C16": dict(
+        level="exploration",
+        variants=dict(quick=[("asan", 1)], thorough=[("asan", 3), ("fixed-asan", 1)]),
+        must_build=["asan"],
+        runs=dict(quick=12000, thorough=300000), secs=dict(quick=45, thorough=500),
+        rule="one evaluation = one middlebox session over packet extensions: seeded extension lists (ids 3-127, 1-48 frames, lacing-boundary payload lengths, repeat-eligible and non-eligible frame patterns, "
+             "arbitrary order) serialised with the library, parsed back through parse / parse_ext / count / count_ext / iterator, with capacity faults (exact, -1, -k, 0 bytes), illegal arguments, corrupted and random "
+             "padding bytes, and carriage of extension-bearing packets through repacketizer merges and splits (incl. splits inside a multi-frame packet and extensions added at output); "
+             "non-trivial = a fault fired (small buffer / illegal argument / corrupted bytes / split inside a packet) and >=5 successful operations; distinct = signature over (frames, list size, pattern, fuzz kind/outcome, carriage shape) sequence",
+        fault_keys=["ext_small_buffer", "ext_bad_args", "ext_fuzzed", "carriage_split_inside", "ext_parse_rejected"],
+        probes_required=["ext_roundtrip", "ext_repeat_pattern", "ext_lacing_ge255", "ext_fuzz_parsed", "carriage_out", "carriage_added", "carriage_checked_nonempty"],
+        real=REAL_CODEC, simulated=SIM_COMMON + ["extension-list model", "packet pool and frame-list model"],
+        assumptions=ASSUME_COMMON + ["the list<->bytes bijection is exercised at exploration strength only (it is a pure function; the simulated part is capacity faults, corruption and repacketizer carriage)"],
+    ),
 }
